@@ -9,7 +9,7 @@
 (* return SCALED results; the scale is part of the operator name           *)
 (* (e.g. AdvFlux6 returns six times the flux).                             *)
 (***************************************************************************)
-EXTENDS Lattice
+EXTENDS Lattice, TLC
 
 -----------------------------------------------------------------------------
 (* element-wise algebra: every cell                                        *)
@@ -112,18 +112,19 @@ Pow4(n) == 4 ^ n
 \* The filters are defined operationally on (field, flux buffer, field buffer): this is what makes
 \* "independent of what the work buffers held before" a checkable statement.  bw = width of the
 \* zone of the flux buffer that is cleared first (>= 1).  Results are scaled by 4^(3n).
-MultAxes(flux, buf) == LET fx == Filt1x4(flux, buf, 1)
-                           fy == Filt1x4(fx, fx, 2)
+MultAxes(flux, buf) == LET fx == TLCEval(Filt1x4(flux, buf, 1))
+                           fy == TLCEval(Filt1x4(fx, fx, 2))
                        IN  Filt1x4(fy, fy, 3)
 RECURSIVE MultIter(_, _, _)
-MultIter(flux, buf, n) == IF n = 0 THEN flux ELSE LET g == MultAxes(flux, buf) IN MultIter(g, g, n - 1)
+\* TLCEval forces eager evaluation (TLC does not cache lazy values inside RECURSIVE operators)
+MultIter(flux, buf, n) == IF n = 0 THEN flux ELSE LET g == TLCEval(MultAxes(flux, buf)) IN MultIter(g, g, n - 1)
 \* multiplicative filter: f - (F_z F_y F_x)^n f
 FilterMult(f, flux, n, bw) ==
     LET fl == MultIter(SetAtBoundaries(bw, flux, 0), f, n)
     IN  [f |-> [c \in Cells |-> Pow4(3 * n) * f[c] - fl[c]], flux |-> fl, buf |-> fl]
 
 RECURSIVE AxisPow(_, _, _, _)
-AxisPow(flux, buf, k, n) == IF n = 0 THEN flux ELSE LET g == Filt1x4(flux, buf, k) IN AxisPow(g, g, k, n - 1)
+AxisPow(flux, buf, k, n) == IF n = 0 THEN flux ELSE LET g == TLCEval(Filt1x4(flux, buf, k)) IN AxisPow(g, g, k, n - 1)
 ConvAxis(f, flux, k, n) == LET fl == AxisPow(flux, f, k, n)
                            IN  [f |-> [c \in Cells |-> Pow4(n) * f[c] - fl[c]], flux |-> fl]
 \* convolution filter: (1 - F_z^n)(1 - F_y^n)(1 - F_x^n) f, one axis after the other
